@@ -121,15 +121,17 @@ FeObserve(h) ==
 (* The application gives a call / subscribe / batch future up before it has returned: it is dropped - by a timeout around  *)
 (* it, a `select!`, or the client's own request timeout (call_with_timeout, helpers.rs:285-293, drops the oneshot the same   *)
 (* way).  Nothing is told to the background tasks: the request stays registered with a waiter that is gone.  If the answer  *)
-(* was already waiting in the oneshot it is dropped with it; an accepted subscription dropped this way behaves like a       *)
-(* dropped stream (Drop for Subscription: try_send of the close request).                                                  *)
+(* was already waiting in the oneshot it is dropped with it.  For an accepted subscription that payload is the receiving    *)
+(* half of the stream, not yet a `Subscription` (client/mod.rs builds that after the await): no close request is sent, the   *)
+(* subscription is noticed and unsubscribed when its next notification finds the receiver gone - like a stream whose drop   *)
+(* message was lost.                                                                                                        *)
 FeAbandon(h) ==
   /\ fe[h].st \in {"idle", "alloc", "sent", "ready"}
   /\ fe' = [fe EXCEPT ![h].st = "abandoned"]
   /\ IF fe[h].st = "ready" /\ fe[h].res.k = "sub"
-       THEN /\ toBack' = IF feOpen /\ Len(toBack) < MaxQueue THEN Append(toBack, [t |-> "subclosed", sub |-> fe[h].res.sub]) ELSE toBack
-            /\ stream' = [stream EXCEPT ![h].rx = "dropped", ![h].buf = <<>>]
-       ELSE UNCHANGED <<toBack, stream>>
+       THEN stream' = [stream EXCEPT ![h].rx = "dropped", ![h].buf = <<>>]
+       ELSE UNCHANGED stream
+  /\ UNCHANGED toBack
   /\ UNCHANGED <<idCtr, req, subIdx, bat, seen, unsubSent, inq, nPeer, nTok, pushed, fault>> /\ UNCHANGED shutVars
 
 (* Subscription::next - client/mod.rs:419-440 *)
